@@ -724,7 +724,7 @@ int main(int argc, char** argv) {
   C.sched.hot = hot.c_str();
   if (C.threads > MAXT) C.threads = MAXT;
 
-  if (C.scenario == "xfree" || C.scenario == "tiny") REF = "C02"; else if (C.scenario == "prodcons") REF = "C08"; else if (C.scenario == "exit") REF = "C09"; else if (C.scenario == "heapdel") REF = "C10"; else REF = "C14";
+  if (C.scenario == "xfree" || C.scenario == "tiny") REF = "C02"; else if (C.scenario == "prodcons") REF = "C08"; else if (C.scenario == "exit") REF = "C09,C02";   /* a double hand-out or changed contents after adoption refutes both */ else if (C.scenario == "heapdel") REF = "C10"; else REF = "C14";
   static std::string refs = REF; REF = refs.c_str();
   vf_result_body = &result_body;
   vf_crash_refutes = REF;
